@@ -143,7 +143,7 @@ def run(ctx):
         execs.append((item["scenario"], tuple(item.get("faults", [])), ex))
         ctx.stat("corpus")
     scs = scenarios(ctx)
-    execs += c08.explore(ctx, scs, pairs=(False if ctx.quick else 250))
+    execs += c08.explore(ctx, scs, pairs=(False if ctx.quick else 150))
     for sc, _f, ex in execs[:2]:
         ctx.sample({"scenario": sc, "line": ex.line})
     for sc, _f, ex in execs:
